@@ -4,6 +4,7 @@ CONSTANTS
   MaxLen = 5
   Vals = {1}
   MaxOps = 5
+  Extras = TRUE
   HistOn = TRUE
   AddSizes = {1, 2}
   RewindPoints <- RPGen
